@@ -1,6 +1,8 @@
 """C04 — evaluation, frequency response, DC gain, poles/zeros plumbing: correspondence between
 sys(x) / evalfr / horner / frequency_response / dcgain / poles / zeros of TransferFunction and
-StateSpace and the Lean model `CtrlVerif.Model.Eval` (driver family `ev`, executed over Q(i))."""
+StateSpace and the Lean model `CtrlVerif.Model.Eval` (driver family `ev`, executed over Q(i)).
+Besides single queries: points close to (not at) a pole, and histories of queries on one object
+(`op: hist`; one driver line per step)."""
 import math
 import re
 from fractions import Fraction
@@ -31,6 +33,10 @@ TAU_ROOTS = Fraction(1, 10 ** 7)     # coefficients rebuilt from the returned ro
 #   op "freq":  "ws": [w...], "scalar": bool, "via": "method"|"func"
 #   op "dc":    "via": "method"|"func"
 #   op "poles" | "zeros": "via": "method"|"func"
+#   op "hist":  "steps": [query without "sys" ...] asked one after the other of ONE object,
+#               "layout": {"A"|"B"|"C"|"D": "C"|"F"|"T"|"S"|"R"|"L"|"I"} (state space: how the caller
+#               holds the matrices, see lay_array)
+#   optional: "near": 1 (case of the near-pole stream), "warr": bool (freq: omega as an ndarray)
 # ----------------------------------------------------------------------------
 
 
@@ -152,6 +158,45 @@ def build(sysd):
         return ct.TransferFunction(num, den, dt_value(dt))
     _, ns, p, m, dt, A, B, C, D = sysd
     return ct.StateSpace(npmat(A, ns, ns), npmat(B, ns, m), npmat(C, p, ns), npmat(D, p, m), dt_value(dt))
+
+
+LAYOUTS = ("C", "F", "T", "S", "R", "L", "I")
+
+
+def lay_array(vals, r, c, how):
+    """the matrix as the caller may legitimately hold it: "C" row-major array, "F" column-major
+    (Fortran-ordered) array, "T" the transposed view of the row-major array of the transpose
+    (`M.T`: column-major, does not own its data), "S" a strided (non-contiguous) view into a larger
+    array, "R" a view with negative strides, "L" nested Python lists, "I" an integer array (when
+    every entry is an integer)"""
+    M = npmat(vals, r, c)
+    if how == "F":
+        return np.asfortranarray(M)
+    if how == "T":
+        return np.ascontiguousarray(M.T).T
+    if how == "S":
+        big = np.full((2 * r + 1, 2 * c + 1), 7.5)
+        big[1::2, 1::2] = M
+        return big[1::2, 1::2]
+    if how == "R":
+        return np.ascontiguousarray(M[::-1, ::-1])[::-1, ::-1]
+    if how == "L" and r * c:
+        return M.tolist()
+    if how == "I" and all(Fraction(v).denominator == 1 for v in vals):
+        return M.astype(np.int64)
+    return M
+
+
+def ss_arrays(sysd, layout):
+    _, ns, p, m, dt, A, B, C, D = sysd
+    layout = layout or {}
+    return [lay_array(A, ns, ns, layout.get("A", "C")), lay_array(B, ns, m, layout.get("B", "C")),
+            lay_array(C, p, ns, layout.get("C", "C")), lay_array(D, p, m, layout.get("D", "C"))]
+
+
+def lay_sig(layout):
+    layout = layout or {}
+    return "".join(layout.get(k, "C") for k in "ABCD")
 
 
 def sys_tokens(sysd):
@@ -502,18 +547,33 @@ def cabs2(re_, im_):
     return re_ * re_ + im_ * im_
 
 
-def tf_cond(num, den, x):
-    """float bound on the absolute rounding error of polyval(num,x)/polyval(den,x), in units of eps"""
+def tf_cond(num, den, x, xq=None):
+    """bound on the absolute rounding error of polyval(num,x)/polyval(den,x), in units of eps, from
+    the *exact* values |num(x)|, |den(x)| at the exact point xq (a pair of Fractions; the float
+    evaluation of the denominator is not trusted: one ulp beside a double root it is off by a
+    factor 2^53).  inf when the relative error of the computed denominator may exceed 1e-3 (the
+    first-order error model below is meaningless there)."""
     ax = abs(x)
-    num = [complex(c) for c in num]
-    den = [complex(c) for c in den]
-    sn = sum(abs(c) * ax ** (len(num) - 1 - k) for k, c in enumerate(num))
-    sd = sum(abs(c) * ax ** (len(den) - 1 - k) for k, c in enumerate(den))
-    dv = abs(np.polyval(den, x))
-    nv = abs(np.polyval(num, x))
-    if dv == 0:
+    numc = [complex(c) for c in num]
+    denc = [complex(c) for c in den]
+    sn = sum(abs(c) * ax ** (len(numc) - 1 - k) for k, c in enumerate(numc))
+    sd = sum(abs(c) * ax ** (len(denc) - 1 - k) for k, c in enumerate(denc))
+    if xq is not None:
+        xg = GQ(xq[0], xq[1])
+        accn, accd = GQ(0), GQ(0)
+        for c in num:
+            accn = accn * xg + c
+        for c in den:
+            accd = accd * xg + c
+        nv = math.sqrt(float(accn.re * accn.re + accn.im * accn.im))
+        dv = math.sqrt(float(accd.re * accd.re + accd.im * accd.im))
+    else:
+        dv = abs(np.polyval(denc, x))
+        nv = abs(np.polyval(numc, x))
+    k = len(numc) + len(denc) + 2
+    if dv == 0 or k * 2.3e-16 * sd * 1e3 >= dv:
         return float("inf")
-    return (len(num) + len(den) + 2) * (sn / dv + nv * sd / (dv * dv))
+    return k * (sn / dv + nv * sd / (dv * dv))
 
 
 class C04(Family):
@@ -527,7 +587,15 @@ class C04(Family):
         "handed to them are claimed; returned roots are compared through the rebuilt coefficients (1e-7)"]
     assumptions = [
         "values are compared to a relative tolerance of 1e-9 (1e-8 for >= 3 states, 1e-5 when the conditioning "
-        "guard |det(xI-A)| >= 1/8 / the Horner error bound is not met); classes finite/inf/nan are compared exactly",
+        "guard |det(xI-A)| >= 1/8 / the Horner error bound is not met, and then only where the backward-error bound "
+        "||C|| ||M^-1||^2 gamma ||M|| ||B|| of the LU leaves a 10^3 margin); 0 and 1 states always 1e-9 (a handful of "
+        "correctly rounded operations, however close to the pole); classes finite/inf/nan are compared exactly",
+        "close to a pole a non-finite answer where the model is finite is judged only when rounding cannot produce an "
+        "exactly zero denominator value (Horner running-error bound) or LU pivot (|det| > 10^3 gamma ||M||^n): always "
+        "for 0 and 1 states (x - a is exact or correctly rounded and non-zero)",
+        "histories: the model is a function of the system alone (theorem hist_answers), every step is compared with the "
+        "stand-alone model answer; a change of the object's own matrices or of the caller's arrays without a wrong "
+        "answer is reported as a broken correspondence, not as a failing input",
         "exact poles are generated only on data for which the floating-point computation is exact (Gaussian-integer "
         "points, integer coefficients, LU factorisations with power-of-two pivots)",
         "a singular zero pencil (det(L - sM) identically 0) leaves the inf/nan decision of the singular branch to "
@@ -546,8 +614,16 @@ class C04(Family):
             "integer matrices, forced singular xI-A, zero rows/columns in B/C) in every timebase "
             "(None, 0, True, 0.1, 1/2, 1, 2); operations call (scalar/array, via __call__/evalfr/horner, points "
             "in Q(i) incl. exact poles), frequency_response (unsorted, repeated, zero, above-Nyquist frequencies, "
-            "method and function), dcgain, poles, zeros; a case is non-trivial when the system is dynamic or the "
-            "point is not real; distinct = distinct canonical serialisation")
+            "method and function), dcgain, poles, zeros; near-pole stream (1/8 of the cases): first-order "
+            "state-space systems with dyadic poles between 2^-10 and 2^20 in magnitude, their transfer-function "
+            "twins, general state-space / transfer-function systems with a known pole, evaluated at binary64 points "
+            "at distance 2^-k max(1,|pole|) (k = 1..60; 1..26 for >= 2 states), one ulp beside the pole and at it; "
+            "frequency grids passing a pole on the stability boundary at distance 2^-3..2^-45 (integrator, "
+            "accumulator, resonance, pi/dt for z = -1); history stream (1/8): 1-5 queries on one object, usually an "
+            "inspection (poles/zeros/dcgain/frequency response) first, on state-space systems (mostly >= 2 states) "
+            "whose A, B, C, D are handed over row-major / column-major / as transposed, strided or reversed views / "
+            "lists / integer arrays, and on transfer functions; a case is non-trivial when the system is dynamic or "
+            "the point is not real (histories: dynamic and >= 2 steps); distinct = distinct canonical serialisation")
 
     side = {}
 
@@ -817,6 +893,253 @@ class C04(Family):
             sysd, _ = self.ss_sys(rng, tier)
         return {"sys": sysd, "op": op, "via": rng.choice(["method", "func"])}
 
+    # ---- points close to, but not at, a pole ---------------------------------------------
+    # poles of the first-order systems of this stream: small, fast (|a| up to 2^20), slow (2^-10),
+    # dyadic so that every coefficient of the transfer-function twin is exact in binary64
+    APOLES = ["0", "0", "1", "1", "1", "-1", "-1", "2", "-1/2", "1/4", "-3", "-1000", "-1000", "1000", "-250",
+              "65536", "-1048576", "3/1024", "-5/4", "100", "-1/1024"]
+    DIRS = [(1, 0), (-1, 0), (0, 1), (0, -1), (1, 1), (-1, 1), (1, -1), (-1, -1), (1, 0), (0, 1)]
+
+    @staticmethod
+    def ftok(x):
+        return tok(fr(float(x)))
+
+    def near_point(self, rng, pole, kmax):
+        """a binary64 point at distance ~ 2^-k * max(1, |pole|) from `pole` = (re, im) (Fractions),
+        k in 1..kmax, or one of the neighbouring floats (one ulp away) of a non-zero real pole;
+        returns ([re token, im token], k)"""
+        pr, pi_ = float(pole[0]), float(pole[1])
+        mag = max(1.0, abs(complex(pr, pi_)))
+        s = 2.0 ** math.floor(math.log2(mag))
+        if pi_ == 0 and pr != 0 and rng.random() < 0.12:
+            xr = float(np.nextafter(pr, rng.choice([-np.inf, np.inf])))
+            return [self.ftok(xr), "0"], 52
+        k = rng.randint(1, kmax) if rng.random() < 0.8 else rng.choice([10, 17, 20, 24, 27, 30, 34, 40])
+        k = min(k, kmax)
+        d = s * 2.0 ** (-k) * rng.choice([1, 1, 1, 3, 5])
+        u = rng.choice(self.DIRS)
+        return [self.ftok(pr + d * u[0]), self.ftok(pi_ + d * u[1])], k
+
+    def ss1_sys(self, rng, dt=None):
+        """a first-order (1 state) state-space system with a dyadic pole, and its pole"""
+        p, m = rng.choice([(1, 1), (1, 1), (1, 1), (1, 1), (1, 2), (2, 1), (2, 2), (2, 3), (3, 2)])
+        dt = dt or self.rdt(rng)
+        a = rng.choice(self.APOLES if dt in ("C", "N") else ["1", "1", "1", "1", "-1", "-1", "0", "1/2", "-1/2"]
+                       + self.APOLES)
+        rv = lambda: str(rng.choice([-2, -1, 1, 1, 2, 3, 0])) if rng.random() < 0.8 else \
+            rng.choice(["1/2", "1/1024", "-3/4", "1000"])
+        B = [rv() for _ in range(m)]
+        C = [rv() for _ in range(p)]
+        D = [str(rng.randint(-2, 2)) for _ in range(p * m)]
+        if rng.random() < 0.2:
+            D = ["0"] * (p * m)
+        return ["LS", 1, p, m, dt, [a], B, C, D], [[a, "0"]]
+
+    def tf1_twin(self, rng, sysd):
+        """the transfer-function form of a first-order state-space system:
+        entry (i, j) = (d_ij s + c_i b_j - d_ij a) / (s - a)"""
+        _, ns, p, m, dt, A, B, C, D = sysd
+        a = Fraction(A[0])
+        ents = []
+        for i in range(p):
+            for j in range(m):
+                d = Fraction(D[i * m + j])
+                num = exact.ptrim([d, Fraction(C[i]) * Fraction(B[j]) - d * a])
+                den = [F1, -a]
+                if exact.pzero(num):
+                    num, den = [F0], [F1]
+                if any(fr(float(c)) != c for c in num + den):
+                    return None
+                ents.append([[tok(c) for c in num], [tok(c) for c in den]])
+        return ["LT", p, m, dt, ents]
+
+    def near_sys(self, rng, tier):
+        """(system, poles as token pairs, kmax): mostly first-order state-space systems (the fast
+        path), their transfer-function twins, and general systems with a known pole"""
+        r = rng.random()
+        if r < 0.45:
+            sysd, poles = self.ss1_sys(rng)
+            return sysd, poles, 60
+        if r < 0.57:
+            sysd, poles = self.ss1_sys(rng)
+            tw = self.tf1_twin(rng, sysd)
+            return (tw, poles, 60) if tw is not None else (sysd, poles, 60)
+        if r < 0.82:
+            for _ in range(40):
+                sysd, poles = self.ss_sys(rng, tier, want_pole=True)
+                if poles and sysd[1] >= 2:
+                    return sysd, poles, 26
+        for _ in range(20):
+            sysd, poles = self.tf_sys(rng) if rng.random() < 0.7 else self.lc_sys(rng)
+            if poles:
+                return sysd, poles, 40
+        sysd, poles = self.ss1_sys(rng)
+        return sysd, poles, 60
+
+    def gen_near_call(self, rng, tier):
+        sysd, poles, kmax = self.near_sys(rng, tier)
+        k = rng.choice([1, 1, 2, 3, 4])
+        xs = []
+        for _ in range(k):
+            pl = rng.choice(poles)
+            r = rng.random()
+            if r < 0.8:
+                xs.append(self.near_point(rng, (Fraction(pl[0]), Fraction(pl[1])), kmax)[0])
+            elif r < 0.9:
+                xs.append(list(pl))                      # exactly at the pole
+            else:
+                xs.append([rng.choice(self.RE), rng.choice(self.IM)])
+        scalar = k == 1 and rng.random() < 0.5
+        allreal = all(x[1] == "0" for x in xs)
+        return {"sys": sysd, "op": "call", "xs": xs, "scalar": scalar, "near": 1,
+                "via": rng.choice(["call", "call", "evalfr", "horner"]),
+                "xkind": rng.choice(["complex", "complex", "list", "real" if allreal else "complex"])}
+
+    def gen_near_freq(self, rng, tier):
+        """frequency responses whose grid comes close to a pole on the stability boundary: very
+        low frequencies for an integrator (s = 0) / accumulator (z = 1), frequencies next to a
+        resonance +-jk, the Nyquist frequency pi/dt for a pole at z = -1"""
+        for _ in range(50):
+            r = rng.random()
+            if r < 0.6:
+                dt = self.rdt(rng)
+                sysd, poles = self.ss1_sys(rng, dt=dt)
+                sysd[5] = ["0"] if dt in ("C", "N") else [rng.choice(["1", "1", "1", "-1"])]
+                poles = [[sysd[5][0], "0"]]
+                if rng.random() < 0.25:
+                    sysd = self.tf1_twin(rng, sysd) or sysd
+            elif r < 0.8:
+                sysd, poles = self.ss_sys(rng, tier, want_pole=True)
+            else:
+                sysd, poles = self.tf_sys(rng)
+            dt = sys_dt(sysd)
+            cont = dt in ("C", "N")
+            h = 1.0 if cont or dt == "T" else float(Fraction(dt[1:]))
+            # frequencies at which the evaluation point passes the pole
+            hits = []
+            for pl in poles:
+                re_, im_ = Fraction(pl[0]), Fraction(pl[1])
+                if cont and re_ == 0 and im_ >= 0:
+                    hits.append(float(im_))
+                if not cont and im_ == 0 and re_ == 1:
+                    hits.append(0.0)
+                if not cont and im_ == 0 and re_ == -1:
+                    hits.append(math.pi / h)
+                if not cont and re_ == 0 and abs(im_) == 1:
+                    hits.append(math.pi / 2 / h)
+            if not hits:
+                continue
+            k = rng.choice([1, 2, 3, 4, 5])
+            ws = []
+            for _ in range(k):
+                w0 = rng.choice(hits)
+                r = rng.random()
+                if r < 0.75:
+                    e = rng.randint(3, 45) if rng.random() < 0.7 else rng.choice([17, 20, 24, 27, 30, 34])
+                    d = 2.0 ** (-e) * rng.choice([1, 1, 3, 5]) / h
+                    w = w0 + d if (w0 == 0 or rng.random() < 0.6) else w0 - d
+                    ws.append(self.ftok(abs(w)))
+                elif r < 0.85:
+                    ws.append(self.ftok(w0))
+                else:
+                    ws.append(rng.choice(self.WS))
+            return {"sys": sysd, "op": "freq", "ws": ws, "scalar": k == 1 and rng.random() < 0.5, "near": 1,
+                    "warr": rng.random() < 0.3,
+                    "via": rng.choice(["method", "method", "func"]) if k != 2 else "method"}
+        return self.gen_near_call(rng, tier)
+
+    # ---- histories ---------------------------------------------------------------------
+    def rlayout(self, rng):
+        """how the caller holds A, B, C, D (see `lay_array`)"""
+        r = rng.random()
+        if r < 0.15:
+            return {}
+        if r < 0.4:
+            how = rng.choice(["F", "T"])
+            return {k: how for k in "ABCD"}            # e.g. everything out of a Fortran routine / a dual
+        lay = {}
+        for k in "ABCD":
+            h = rng.choice(["C", "C", "F", "F", "T", "T", "S", "R", "L", "I"])
+            if h != "C":
+                lay[k] = h
+        return lay
+
+    def rstep(self, rng, sysd, poles, kind=None):
+        op = kind or rng.choice(["call", "call", "call", "freq", "freq", "dc", "poles", "poles", "zeros"])
+        if op == "poles" and sysd[0] == "LC":
+            op = "dc"            # (known finding C04-tf-poles-complex-den would mask the history)
+        if op == "call":
+            k = rng.choice([1, 1, 2, 3])
+            xs = [self.rpoint(rng, poles) for _ in range(k)]
+            return {"op": "call", "xs": xs, "scalar": k == 1 and rng.random() < 0.5,
+                    "via": rng.choice(["call", "call", "evalfr", "horner"]),
+                    "xkind": rng.choice(["complex", "complex", "list"])}
+        if op == "freq":
+            k = rng.choice([1, 3, 3, 4])
+            ws = [rng.choice(self.WS) for _ in range(k)]
+            return {"op": "freq", "ws": ws, "scalar": k == 1 and rng.random() < 0.5,
+                    "warr": rng.random() < 0.4, "via": rng.choice(["method", "method", "func"])}
+        return {"op": op, "via": rng.choice(["method", "func"])}
+
+    def gen_hist(self, rng, tier):
+        """2-5 queries on ONE object: an inspection (poles / zeros / dcgain / a frequency response)
+        followed by evaluations, on state-space systems whose matrices the caller holds in
+        assorted memory layouts, and on transfer functions"""
+        r = rng.random()
+        if r < 0.8:
+            for _ in range(30):
+                sysd, poles = self.ss_sys(rng, tier)
+                if sysd[1] >= 2 or rng.random() < 0.15:
+                    break
+            lay = self.rlayout(rng)
+        else:
+            sysd, poles = self.tf_sys(rng) if rng.random() < 0.7 else self.lc_sys(rng)
+            lay = {}
+        n = rng.choice([1, 2, 2, 3, 3, 4, 5])
+        steps = []
+        if n >= 2 and rng.random() < 0.75:
+            steps.append(self.rstep(rng, sysd, poles, kind=rng.choice(["poles", "poles", "zeros", "dc", "freq"])))
+        while len(steps) < n:
+            steps.append(self.rstep(rng, sysd, poles))
+        if n >= 2 and steps[-1]["op"] in ("poles", "zeros") and rng.random() < 0.7:
+            steps[-1] = self.rstep(rng, sysd, poles, kind=rng.choice(["call", "call", "dc", "freq"]))
+        case = {"sys": sysd, "op": "hist", "steps": steps}
+        if sysd[0] == "LS":
+            case["layout"] = lay
+        return case
+
+    def hist_around(self, rng, case):
+        """histories around a single query that broke the correspondence without a wrong value
+        (e.g. a different call into a root finder): the query, then probes of the same object, in
+        several memory layouts of the same matrices"""
+        sysd = case["sys"]
+        first = {k: v for k, v in case.items() if k not in ("sys", "layout", "steps")}
+        if case["op"] == "hist":
+            firsts = [st for st in case["steps"]][:2]
+        else:
+            firsts = [first]
+        out = []
+        lays = [{k: "F" for k in "ABCD"}, {k: "T" for k in "ABCD"}, {"A": "F"}, {}] if sysd[0] == "LS" else [{}]
+        for lay in lays:
+            for _ in range(6):
+                probes = [self.rstep(rng, sysd, [], kind=rng.choice(["call", "call", "dc", "freq", "zeros", "poles"]))
+                          for _ in range(rng.choice([1, 2, 3]))]
+                c = {"sys": sysd, "op": "hist", "steps": list(firsts) + probes}
+                if sysd[0] == "LS":
+                    c["layout"] = lay
+                out.append(c)
+        return out
+
+    def search(self, rng, case, tier):
+        out = self.hist_around(rng, case)
+        sysd = case["sys"]
+        if sysd[0] == "LS":
+            # the same inspection on other systems of the same size, in the layouts above
+            for _ in range(40):
+                s2, _ = self.ss_sys(rng, tier, shape=(sysd[2], sysd[3]))
+                out += self.hist_around(rng, dict(case, sys=s2))[::6]
+        return out
+
     def generate(self, rng, tier):
         n = 800 if tier == "quick" else 12000
         out = []
@@ -834,6 +1157,10 @@ class C04(Family):
                 out.append(self.gen_pz(rng, tier, "zeros"))
         for i in range(n // 20):
             out.append(self.gen_dc_complex(rng, tier))
+        for i in range(n // 8):
+            out.append(self.gen_near_call(rng, tier) if i % 3 else self.gen_near_freq(rng, tier))
+        for i in range(n // 8):
+            out.append(self.gen_hist(rng, tier))
         return out
 
     def corpus(self):
@@ -861,7 +1188,42 @@ class C04(Family):
             {"sys": ss(2, 1, 1, "D1/2", "1/2 0 1 1/4", "1 0", "0 1", "0"), "op": "freq",
              "ws": ["3", "1/2", "10", "1/2"], "scalar": False, "via": "method"},
             call(ss(2, 1, 1, "C", "0 1 -1 0", "0 1", "1 0", "0"), [["0", "1"], ["0", "-1"], ["1", "1"]]),
-        ] + self.corpus_complex()
+        ] + self.corpus_complex() + self.corpus_near_hist()
+
+    def corpus_near_hist(self):
+        """points close to (not at) the pole of a first-order system, and evaluations after an
+        inspection of one object whose state matrix is column-major"""
+        ss = lambda ns, p, m, dt, A, B, C, D: ["LS", ns, p, m, dt, A.split(), B.split(), C.split(), D.split()]
+        f = self.ftok
+        call = lambda s, xs, **kw: dict({"sys": s, "op": "call", "xs": xs, "scalar": False, "via": "call",
+                                         "xkind": "complex", "near": 1}, **kw)
+        fast = ss(1, 1, 1, "C", "-1000", "2", "3", "1/2")                  # pole at -1000
+        fast2 = ss(2, 1, 1, "C", "-1000 0 0 -7", "2 1", "3 0", "1/2")      # + an unobservable state
+        acc = ss(1, 1, 1, "D1/1024", "1", "1/1024", "1", "0")              # accumulator, dt = 2^-10
+        integ = ss(1, 1, 1, "C", "0", "1", "1", "0")
+        near1000 = [[f(-1000 + 2.0 ** -8), "0"], ["-1000", f(2.0 ** -9)], [f(-1000 + 2.0 ** -7), f(-2.0 ** -10)]]
+        ocf = ss(3, 1, 1, "C", "0 0 -6 1 0 -11 0 1 -6", "1 2 1/2", "0 0 1", "0")   # observable companion form
+        probe = {"op": "call", "xs": [["1/4", "2"], ["0", "1"], ["3", "0"]], "scalar": False, "via": "call",
+                 "xkind": "complex"}
+        q = lambda op: {"op": op, "via": "method"}
+        return [
+            call(fast, near1000), call(fast2, near1000),
+            call(["LT", 1, 1, "C", [[["1/2", "506"], ["1", "1000"]]]], near1000),
+            call(integ, [[f(2.0 ** -30), "0"], ["0", f(2.0 ** -40)], [f(-2.0 ** -27), f(2.0 ** -27)]]),
+            call(ss(1, 2, 2, "T", "1", "1 0", "1 2", "0 0 0 1"), [[f(1 + 2.0 ** -20), "0"], ["1", f(2.0 ** -33)]]),
+            {"sys": acc, "op": "freq", "ws": [f(2.0 ** -9), f(2.0 ** -7), "1"], "scalar": False, "via": "method",
+             "near": 1},
+            {"sys": integ, "op": "freq", "ws": [f(2.0 ** -30), f(2.0 ** -40), "1"], "scalar": False,
+             "via": "func", "near": 1},
+            {"sys": ss(1, 1, 1, "D1/2", "-1", "1", "1", "0"), "op": "freq", "ws": [f(2 * math.pi), "1"],
+             "scalar": False, "via": "method", "near": 1},
+            {"sys": ocf, "op": "hist", "layout": {"A": "T"}, "steps": [probe, q("poles"), probe, q("dc"), q("zeros")]},
+            {"sys": ocf, "op": "hist", "layout": {"A": "F", "B": "F", "C": "F", "D": "F"},
+             "steps": [q("poles"), q("poles"), {"op": "freq", "ws": ["1", "1/4", "3"], "scalar": False,
+                                                 "via": "method", "warr": True}]},
+            {"sys": ss(2, 2, 2, "D1/2", "0 1 -1/2 1", "1 0 0 1", "1 0 1 1", "0 0 0 1"), "op": "hist",
+             "layout": {"A": "T", "B": "S", "C": "R", "D": "L"}, "steps": [q("zeros"), q("poles"), probe, q("dc")]},
+        ]
 
     def corpus_complex(self):
         """complex coefficients: gain matrices that mix real / infinite / NaN entries with non-real
@@ -912,6 +1274,10 @@ class C04(Family):
     # ---- execution ----------------------------------------------------------------------
     def line(self, case):
         sysd = case["sys"]
+        if case["op"] == "hist":
+            # the model is a function of the system alone (`C04.hist_answers`): one stand-alone
+            # line per step
+            return [self.line(dict(st, sys=sysd)) for st in case["steps"]]
         s = "ev " + sys_tokens(sysd)
         op = case["op"]
         if op == "call":
@@ -968,12 +1334,22 @@ class C04(Family):
         return np.array(xs)
 
     def impl(self, case):
+        if case["op"] == "hist":
+            return self.impl_hist(case)
         try:
             sys_ = build(case["sys"])
+        except Exception as e:  # noqa
+            return {"err": classify_exc(e), "exc": "%s: %s" % (type(e).__name__, norm_msg(str(e)))}
+        return self.run_op(sys_, case)
+
+    def run_op(self, sys_, case):
+        """one query on the object `sys_` (the real python-control code), canonical result"""
+        try:
             p, m = sys_shape(case["sys"])
             op = case["op"]
             if op == "call":
                 x = self.xvalue(case)
+                x0 = x.copy() if isinstance(x, np.ndarray) else None
                 k = len(case["xs"])
                 if case["via"] == "evalfr":
                     v = ct.evalfr(sys_, x, squeeze=False)
@@ -986,11 +1362,15 @@ class C04(Family):
                 if v.shape != want:
                     return {"ok": {"type": "shape", "shape": list(v.shape), "want": list(want)}}
                 v = v.reshape(p, m, k)
-                return {"ok": {"type": "vals", "k": k, "cells": [
-                    [cell_of(v[i, j, q]) for i in range(p) for j in range(m)] for q in range(k)]}}
+                out = {"type": "vals", "k": k, "cells": [
+                    [cell_of(v[i, j, q]) for i in range(p) for j in range(m)] for q in range(k)]}
+                if x0 is not None and not np.array_equal(x, x0):
+                    out["argmut"] = True          # the caller's array of points was written to
+                return {"ok": out}
             if op == "freq":
                 ws = [float(Fraction(w)) for w in case["ws"]]
-                arg = ws[0] if case["scalar"] else ws
+                arg = ws[0] if case["scalar"] else (np.array(ws) if case.get("warr") else ws)
+                arg0 = arg.copy() if isinstance(arg, np.ndarray) else None
                 r = ct.frequency_response(sys_, arg) if case["via"] == "func" else sys_.frequency_response(arg)
                 om = np.asarray(r.omega)
                 v = np.asarray(r.frdata)
@@ -998,8 +1378,11 @@ class C04(Family):
                 if v.shape != (p, m, k) or om.shape != (k,):
                     return {"ok": {"type": "shape", "shape": list(v.shape), "want": [p, m, k],
                                    "omega": list(om.shape)}}
-                return {"ok": {"type": "vals", "k": k, "omega": [tok(fr(w)) for w in om], "cells": [
-                    [cell_of(v[i, j, q]) for i in range(p) for j in range(m)] for q in range(k)]}}
+                out = {"type": "vals", "k": k, "omega": [tok(fr(w)) for w in om], "cells": [
+                    [cell_of(v[i, j, q]) for i in range(p) for j in range(m)] for q in range(k)]}
+                if arg0 is not None and not np.array_equal(arg, arg0):
+                    out["argmut"] = True          # the caller's frequency array was written to
+                return {"ok": out}
             if op == "dc":
                 g = ct.dcgain(sys_) if case["via"] == "func" else sys_.dcgain()
                 g = np.asarray(g)
@@ -1023,7 +1406,56 @@ class C04(Family):
             return {"err": classify_exc(e), "exc": "%s: %s" % (type(e).__name__, norm_msg(str(e)))}
         return {"err": "harness", "exc": "unknown op"}
 
+    # ---- histories: several queries on ONE object --------------------------------------------
+    @staticmethod
+    def sys_state(sys_):
+        """the data that define the object (copies)"""
+        if isinstance(sys_, ct.StateSpace):
+            return [np.array(M, copy=True) for M in (sys_.A, sys_.B, sys_.C, sys_.D)]
+        return [np.array(a, copy=True) for arr in (sys_.num_array, sys_.den_array) for a in arr.flat]
+
+    @staticmethod
+    def same_state(s0, s1):
+        return len(s0) == len(s1) and all(
+            a.shape == b.shape and np.array_equal(a, b) for a, b in zip(s0, s1))
+
+    def build_hist(self, case):
+        """(object, the arrays handed to the constructor, copies of them)"""
+        sysd = case["sys"]
+        if sysd[0] != "LS":
+            return build(sysd), [], []
+        arrs = ss_arrays(sysd, case.get("layout"))
+        keep = [np.array(a, copy=True) for a in arrs]
+        return ct.StateSpace(*arrs, dt_value(sysd[4])), arrs, keep
+
+    def impl_hist(self, case):
+        """every step on one and the same object; for reference every step also on a freshly
+        built object (same layout); whether the object's own data and the caller's arrays are
+        still what they were"""
+        try:
+            sysd = case["sys"]
+            sys_, arrs, keep = self.build_hist(case)
+            s0 = self.sys_state(sys_)
+            steps, fresh, mutated_after = [], [], None
+            for k, st in enumerate(case["steps"]):
+                c = dict(st, sys=sysd)
+                steps.append(self.run_op(sys_, c))
+                if mutated_after is None and not self.same_state(s0, self.sys_state(sys_)):
+                    mutated_after = k
+            caller_ok = all(np.array_equal(np.asarray(a), b) for a, b in zip(arrs, keep))
+            for st in case["steps"]:
+                f_sys = self.build_hist(case)[0]
+                fresh.append(self.run_op(f_sys, dict(st, sys=sysd)))
+            return {"ok": {"type": "hist", "steps": steps, "fresh": fresh,
+                           "mutated_after": mutated_after, "caller_ok": bool(caller_ok)}}
+        except Exception as e:  # noqa
+            return {"err": classify_exc(e), "exc": "%s: %s" % (type(e).__name__, norm_msg(str(e)))}
+
     def parse_model(self, case, out):
+        if case["op"] == "hist":
+            outs = out if isinstance(out, list) else [out]
+            return {"ok": {"type": "hist", "steps": [
+                self.parse_model(dict(st, sys=case["sys"]), o) for st, o in zip(case["steps"], outs)]}}
         if out.startswith("err "):
             return {"err": out.split()[1]}
         tk = Tokens(out)
@@ -1094,19 +1526,79 @@ class C04(Family):
         return f
 
     def point_tau(self, case, q, mpt, xfloat):
-        """tolerance class for the values at point q"""
+        """(tolerance class, absolute error bound or None) for the values at point q.  A bound is
+        returned close to a pole of the general path: an entry is judged (at 1e-5) only when
+        1e3 * bound <= 1e-5 * scale."""
         sysd = case["sys"]
         if sysd[0] == "LS":
             ns = sysd[1]
-            if ns == 0:
-                return TAU
+            if ns <= 1:
+                # no states: D itself.  One state: c / (x - a) * b + d, a handful of correctly rounded
+                # operations (x - a is exact or correctly rounded per component): the error is below
+                # 16 eps (|cb / (x - a)| + |d|) however close x is to the pole
+                return TAU, None
             if Fraction(mpt["det2"]) >= Fraction(1, 64):
-                return TAU if ns <= 2 else TAU_SS3
-            return TAU_LOOSE
-        return None   # per entry, see tf_tau
+                return (TAU if ns <= 2 else TAU_SS3), None
+            return TAU_LOOSE, self.ss_err_bound(case, q, mpt)
+        return None, None   # per entry, see tf_tau
 
-    def tf_tau(self, ent, x, scale):
-        c = tf_cond(ent[0], ent[1], x)
+    EPS = 2.3e-16
+
+    def ss_norms(self, case, q):
+        """(ns, ||xI - A||_F, ||B||_F, ||C||_F, ||D||_F) in floats"""
+        _, ns, p, m, dt, A, B, C, D = case["sys"]
+        x = eval_points(case)[q]
+        xr, xi = float(x[0]), float(x[1])
+        Af = fmat(A, ns, ns)
+        nM = math.sqrt(sum(abs(complex((xr if i == j else 0.0) - float(Af[i][j]), xi if i == j else 0.0)) ** 2
+                           for i in range(ns) for j in range(ns)))
+        nrm = lambda vals: math.sqrt(sum(float(Fraction(v)) ** 2 for v in vals))
+        return ns, nM, nrm(B), nrm(C), nrm(D)
+
+    def lu_gamma(self, ns):
+        """backward error constant of LAPACK's complex LU with partial pivoting (3 n^2 growth eps,
+        growth <= 2^(n-1), complex arithmetic), rounded up"""
+        return 64 * ns * ns * self.EPS
+
+    def ss_err_bound(self, case, q, mpt):
+        """bound on |impl - exact| of C solve(xI - A, B) + D near a pole: the computed X solves
+        (M + E) X = B with ||E|| <= gamma ||M||, and ||M^-1|| <= ||M||^(n-1) / |det M|"""
+        ns, nM, nB, nC, nD = self.ss_norms(case, q)
+        det2 = float(Fraction(mpt["det2"]))
+        if det2 <= 0:
+            return float("inf")
+        inv = nM ** (ns - 1) / math.sqrt(det2)
+        return nC * inv * inv * self.lu_gamma(ns) * nM * nB + 8 * self.EPS * (nC * inv * nB + nD)
+
+    def float_robust(self, case, q, idx, mpt):
+        """the model value at point q is finite; is the floating-point computation certain not to hit
+        an exact zero there (denominator value for a transfer function, pivot of the LU for the
+        general state-space path)?  Then a non-finite answer of the implementation is a failure;
+        otherwise it is a matter of rounding (not judged)."""
+        sysd = case["sys"]
+        x = eval_points(case)[q]
+        if is_tf(sysd):
+            den = ent_gq(sysd, idx)[1]
+            xg = GQ(x[0], x[1])
+            acc, ax, sabs = GQ(0), math.hypot(float(x[0]), float(x[1])), 0.0
+            for c in den:
+                acc = acc * xg + c
+                sabs = sabs * ax + abs(complex(c))
+            dv = abs(complex(acc))
+            return dv > 1e3 * 8 * (len(den) + 1) * self.EPS * sabs
+        ns = sysd[1]
+        if ns == 0:
+            return True
+        if ns == 1:
+            a = Fraction(sysd[5][0])
+            d2 = (x[0] - a) ** 2 + x[1] ** 2
+            return d2 > Fraction(1, 2 ** 400)      # c / (x - a) cannot overflow
+        ns, nM, nB, nC, nD = self.ss_norms(case, q)
+        det = math.sqrt(float(Fraction(mpt["det2"])))
+        return det > 1e3 * self.lu_gamma(ns) * nM ** ns
+
+    def tf_tau(self, ent, x, scale, xq=None):
+        c = tf_cond(ent[0], ent[1], x, xq)
         eps = 2.3e-16
         if c * eps * 1e3 <= 1e-9 * scale:
             return TAU
@@ -1129,6 +1621,57 @@ class C04(Family):
         return list(np.exp(1j * om * h))
 
     def compare(self, case, impl, model):
+        if case["op"] == "hist":
+            return self.compare_hist(case, impl, model)
+        return self.compare_single(case, impl, model)
+
+    def compare_hist(self, case, impl, model):
+        """every step of the history against the model's stand-alone answer (`C04.hist_answers`:
+        the answer to a query does not depend on what was asked before).  A failing step is
+        `history: dependent` when the same query on a freshly built object is right."""
+        sysd = case["sys"]
+        lay = lay_sig(case.get("layout")) if sysd[0] == "LS" else "-"
+        if "err" in impl:
+            return Verdict(VIOLATES, "history raises %s" % impl.get("exc"),
+                           self.feats(case, "raises", exc=impl.get("exc", "").split(":")[0]))
+        io, mo = impl["ok"], model["ok"]
+        first_diff = None
+        worst, info = 0.0, {}
+        for k, st in enumerate(case["steps"]):
+            c = dict(st, sys=sysd)
+            v = self.compare_single(c, io["steps"][k], mo["steps"][k])
+            sd = self.side.pop(id(c), {})
+            worst = max(worst, sd.get("worst", 0.0))
+            for key in ("unjudged", "zeros_unchecked", "near_unjudged"):
+                if sd.get(key):
+                    info[key] = sd[key]
+            if v.status == AGREE:
+                continue
+            c2 = dict(st, sys=sysd)
+            vf = self.compare_single(c2, io["fresh"][k], mo["steps"][k])
+            self.side.pop(id(c2), None)
+            dep = "dependent" if vf.status == AGREE else "independent"
+            before = [s2["op"] for s2 in case["steps"][:k]]
+            f = dict(v.features, hist=dep)
+            out = Verdict(v.status, "step %d (%s) after %s on one object [layout ABCD=%s; on a fresh object: %s]: %s"
+                          % (k, st["op"], before, lay, "right" if dep == "dependent" else "also wrong", v.detail), f)
+            if v.status == VIOLATES:
+                return out
+            first_diff = first_diff or out
+        self.side[id(case)] = dict(info, worst=worst)
+        if first_diff is not None:
+            return first_diff
+        if io.get("mutated_after") is not None:
+            k = io["mutated_after"]
+            return Verdict(DIFFERS, "the object's own data changed during step %d (%s); every answer still agrees"
+                           % (k, case["steps"][k]["op"]),
+                           self.feats(case, "state-mutated", step=case["steps"][k]["op"]))
+        if not io.get("caller_ok", True):
+            return Verdict(DIFFERS, "the arrays the caller handed to the constructor were written to",
+                           self.feats(case, "caller-mutated"))
+        return Verdict(AGREE)
+
+    def compare_single(self, case, impl, model):
         op = case["op"]
         if "err" in model:
             if "err" in impl:
@@ -1156,13 +1699,15 @@ class C04(Family):
         if io["k"] != mo["k"]:
             return Verdict(VIOLATES, "number of points", self.feats(case, "shape"))
         xf = self.xfloats(case, model)
+        xq = eval_points(case)
         sysd = case["sys"]
         p, m = sys_shape(sysd)
         worst = Fraction(0)
         unjudged = 0
+        near_unjudged = 0
         for q in range(mo["k"]):
             mpt = mo["pts"][q]
-            tau_pt = self.point_tau(case, q, mpt, xf[q])
+            tau_pt, bound_pt = self.point_tau(case, q, mpt, xf[q])
             for idx in range(p * m):
                 mc, ic = mpt["cells"][idx], io["cells"][q][idx]
                 mcl = {"F": "finite", "I": "inf", "N": "nan"}[mc[0]]
@@ -1173,6 +1718,10 @@ class C04(Family):
                     # power-of-two pivots): whether solve() raises is a matter of rounding
                     unjudged += 1
                     break
+                if mcl == "finite" and icl != "finite" and not self.float_robust(case, q, idx, mpt):
+                    # so close to a pole that a rounded denominator / pivot may be exactly zero
+                    near_unjudged += 1
+                    continue
                 if mcl != icl:
                     return Verdict(VIOLATES, "point %d entry %d: model %s impl %s" % (q, idx, mc, ic),
                                    self.feats(case, "class", model=mcl, impl=icl))
@@ -1182,18 +1731,24 @@ class C04(Family):
                 ire, iim = Fraction(ic[1]), Fraction(ic[2])
                 scale = max(Fraction(1), abs(mre), abs(mim))
                 if is_tf(sysd):
-                    tau = self.tf_tau(ent_gq(sysd, idx), xf[q], float(scale))
+                    tau = self.tf_tau(ent_gq(sysd, idx), xf[q], float(scale), xq[q])
                     if tau is None:
                         continue
                 else:
                     tau = tau_pt
+                    if bound_pt is not None and bound_pt * 1e3 > 1e-5 * float(scale):
+                        near_unjudged += 1      # too ill-conditioned for a value comparison
+                        continue
                 err = max(abs(mre - ire), abs(mim - iim)) / scale
                 if err > tau:
                     return Verdict(VIOLATES, "point %d entry %d: model %s impl %s (rel err %.3g, tol %.1g)"
                                    % (q, idx, mc[1:], ic[1:], float(err), float(tau)),
                                    self.feats(case, "value", tol=str(float(tau))))
                 worst = max(worst, err / tau)
-        self.side[id(case)] = {"worst": float(worst), "unjudged": unjudged}
+        self.side[id(case)] = {"worst": float(worst), "unjudged": unjudged, "near_unjudged": near_unjudged}
+        if io.get("argmut"):
+            return Verdict(DIFFERS, "the caller's array of evaluation points / frequencies was written to",
+                           self.feats(case, "arg-mutated"))
         if op == "dc":
             self.side[id(case)]["dc"] = self.dc_mix(mo, io)
             if io.get("real") != mo.get("real"):
@@ -1318,6 +1873,8 @@ class C04(Family):
         dynamic = (sysd[0] == "LS" and sysd[1] > 0) or \
             (is_tf(sysd) and any(len(e[1]) > 1 or len(e[0]) > 1 for e in sysd[4]))
         notreal = case["op"] == "freq" or any(x[1] != "0" for x in case.get("xs", []))
+        if case["op"] == "hist":
+            return "ok" in model and dynamic and len(case["steps"]) >= 2
         return "ok" in model and (dynamic or notreal)
 
     def stats(self, case, impl, model):
@@ -1342,6 +1899,34 @@ class C04(Family):
                 ws = [Fraction(w) for w in case["ws"]]
                 st["grid"] = "unsorted" if any(a > b for a, b in zip(ws, ws[1:])) else (
                     "repeated" if len(set(ws)) < len(ws) else "sorted")
+        if case["op"] == "hist":
+            ops = [st["op"] for st in case["steps"]]
+            st["hist_steps"] = str(len(ops))
+            if sysd[0] == "LS":
+                a = (case.get("layout") or {}).get("A", "C")
+                st["hist_layout_A"] = a
+                insp = [k for k, o in enumerate(ops) if o in ("poles", "zeros")]
+                if insp and any(o in ("call", "freq", "dc", "zeros") for o in ops[insp[0] + 1:]) and sysd[1] >= 2:
+                    st["hist_eval_after_inspection"] = "A column-major" if a in ("F", "T") else "A other layout"
+            if len(ops) >= 2:
+                st["hist_first_pair"] = "%s>%s" % (ops[0], ops[1])
+        if case.get("near"):
+            st["near_pole_stream"] = "%s/%s" % (case["op"], sysd[0] + (str(min(sysd[1], 2)) if sysd[0] == "LS" else ""))
+            try:
+                dmin = None
+                for (xr, xi) in eval_points(case):
+                    for pl in self.exact_poles(sysd):
+                        d2 = (xr - pl[0]) ** 2 + (xi - pl[1]) ** 2
+                        rel = d2 / max(F1, pl[0] ** 2 + pl[1] ** 2)
+                        if rel != 0 and (dmin is None or rel < dmin):
+                            dmin = rel
+                if dmin is not None:
+                    e = -math.log2(float(dmin)) / 2
+                    st["near_pole_rel_dist"] = ("2^-1..2^-12" if e < 12 else "2^-12..2^-17 (beyond isclose rtol)"
+                                                if e < 17 else "2^-17..2^-27" if e < 27 else
+                                                "2^-27..2^-40 (beyond isclose atol)" if e < 40 else "below 2^-40")
+            except Exception:
+                pass
         sd = self.side.get(id(case), {})
         if "worst" in sd:
             w = sd["worst"]
@@ -1350,14 +1935,42 @@ class C04(Family):
             st["dc_complex_coeff"] = sd["dc"]
         if sd.get("unjudged"):
             st["exact_pole_not_exact_in_float_LU"] = "class not judged"
+        if sd.get("near_unjudged"):
+            st["near_pole_beyond_rounding_guard"] = "entry not judged"
         if sd.get("zeros_unchecked"):
             st["zeros_values"] = "unchecked(D singular)"
         if case.get("via"):
             st["via"] = case["via"]
         return st
 
+    @staticmethod
+    def exact_poles(sysd):
+        """poles that are known exactly without a root finder: of a first-order system"""
+        if sysd[0] == "LS" and sysd[1] == 1:
+            return [(Fraction(sysd[5][0]), F0)]
+        if sysd[0] == "LT":
+            out = []
+            for n, d in sysd[4]:
+                if len(d) == 2:
+                    out.append((-Fraction(d[1]) / Fraction(d[0]), F0))
+            return out
+        return []
+
     def shrink(self, case):
         out = []
+        if case["op"] == "hist":
+            steps = case["steps"]
+            for i in range(len(steps) if len(steps) > 1 else 0):
+                out.append(dict(case, steps=steps[:i] + steps[i + 1:]))
+            lay = case.get("layout") or {}
+            for k in sorted(lay):
+                out.append(dict(case, layout={a: b for a, b in lay.items() if a != k}))
+            for i, st in enumerate(steps):
+                for key in ("xs", "ws"):
+                    if len(st.get(key, [])) > 1:
+                        st2 = dict(st, scalar=False)
+                        st2[key] = st[key][:1]
+                        out.append(dict(case, steps=steps[:i] + [st2] + steps[i + 1:]))
         if case["op"] == "call" and len(case["xs"]) > 1:
             for i in range(len(case["xs"])):
                 c = dict(case)
